@@ -145,3 +145,21 @@ def sany(module_path: Path) -> bool:
     p = subprocess.run(["java", "-cp", JAVA_CP, "tla2sany.SANY", str(module_path)], cwd=str(module_path.parent),
                        stdout=subprocess.PIPE, stderr=subprocess.STDOUT, text=True)
     return p.returncode == 0 and "Semantic errors" not in p.stdout and "Parsing or semantic analysis failed" not in p.stdout, p.stdout
+
+
+def apalache(module: str, init: str, inv: str, length: int, timeout: int = 600, text: str = None) -> str:
+    """Run apalache-mc check on spec/apalache/<module>.tla (or on `text`, a variant of it); returns 'NoError', 'Error'
+    or a description of why it did not run."""
+    import shutil as _sh
+    if _sh.which("apalache-mc") is None:
+        return "apalache-mc not available"
+    _counter[0] += 1
+    work = scratch() / f"apa{_counter[0]}"
+    work.mkdir(parents=True, exist_ok=True)
+    src = text if text is not None else (SPEC / "apalache" / f"{module}.tla").read_text()
+    (work / f"{module}.tla").write_text(src)
+    p = subprocess.run(["timeout", str(timeout), "apalache-mc", "check", f"--init={init}", f"--inv={inv}", f"--length={length}",
+                        f"--out-dir={work}/out", f"{module}.tla"], cwd=str(work), stdout=subprocess.PIPE, stderr=subprocess.STDOUT, text=True)
+    m = re.search(r"The outcome is: (\w+)", p.stdout)
+    shutil.rmtree(work, ignore_errors=True)
+    return m.group(1) if m else f"exit {p.returncode}: {p.stdout[-300:]}"
